@@ -12,7 +12,10 @@ RULE = ("history differential: random histories over {create v1/v2/hybrid of p (
         "grow / shrink / rewrite a file under p, edit, recheck, rebuild, magnet, info} run in ONE interpreter; before every operation "
         "step the filesystem state is saved, and after it the same step is executed in a FRESH interpreter on the restored state at the "
         "same path; results (metafile bytes minus creation date, percentage repr, magnet URI, rebuilt-tree digest, exception class) and "
-        "the resulting filesystem digests must be equal.  A history is non-trivial when it contains a create after a filesystem change "
+        "the resulting filesystem digests must be equal.  Aimed histories: create/change/create for every kind of change; two torrents "
+        "of different piece lengths with missing or short ALL-ZERO files rechecked/rebuilt one after the other (state computed on first "
+        "use); operations that RAISE in the middle (symlink leaf without length in nested directories, missing metafile, directory in "
+        "place of a file) followed by ordinary operations.  A history is non-trivial when it contains a create after a filesystem change "
         "that followed an earlier create/recheck of the same path; distinct = distinct step sequence.")
 TRUSTED_BASE = [
     "Coq 8.16.1 kernel; theorems closed under the global context",
@@ -57,9 +60,41 @@ def gen_history(rng, length):
 
 def apply_fs(sb, step):
     import random
-    p = os.path.join(sb, "payload", step["file"])
-    rnd = random.Random(step["seed"])
     act = step["action"]
+    if act == "remove-meta":                 # the next operation on this metafile raises
+        mf = os.path.join(sb, f"m{step['version']}.torrent")
+        if os.path.exists(mf):
+            os.remove(mf)
+        return
+    if act == "craft-symlink-leaf":
+        # copy m<src>.torrent to m<dst>.torrent with a BEP 52 symlink leaf (`attr: l`, no `length`) added inside the
+        # nested directory `d` of the file tree: walking the tree raises KeyError in the middle of the recursion
+        import pyben
+        src = os.path.join(sb, f"m{step['src']}.torrent")
+        if not os.path.exists(src):
+            return
+        meta = pyben.load(src)
+        tree = meta["info"].get("file tree")
+        if isinstance(tree, dict):
+            sub = tree.setdefault("d", {})
+            if "" in sub:
+                sub = tree
+            sub["lnk"] = {"": {"attr": "l", "symlink path": ["a"]}}
+            tree["zz"] = {"deep": {"er": {"lnk2": {"": {"attr": "l", "symlink path": ["b"]}}}}}
+        pyben.dump(meta, os.path.join(sb, f"m{step['dst']}.torrent"))
+        return
+    p = os.path.join(sb, "payload", step["file"])
+    if act == "zeros":                       # a file of zero bytes (its piece hashes equal those of padding)
+        os.makedirs(os.path.dirname(p), exist_ok=True)
+        with open(p, "wb") as fd:
+            fd.write(bytes(step["size"]))
+        return
+    if act == "dir-for-file":                # a directory where the metafile names a file: unreadable content path
+        if os.path.isfile(p):
+            os.remove(p)
+        os.makedirs(os.path.join(p, "inner"), exist_ok=True)
+        return
+    rnd = random.Random(step["seed"])
     if act in ("add", "rewrite") or (act in ("grow", "shrink") and not os.path.exists(p)):
         os.makedirs(os.path.dirname(p), exist_ok=True)
         n = os.path.getsize(p) if (act == "rewrite" and os.path.exists(p)) else rnd.choice([5, 16384, 20000])
@@ -144,10 +179,84 @@ def nontrivial(steps):
     return False
 
 
+def aimed_state_histories(tier):
+    """histories aimed at process-lifetime state that the random generator reaches only by luck:
+    (a) something computed on FIRST use and kept (a padding hash, a compiled table): the same kind of operation on two
+        torrents of DIFFERENT piece lengths whose missing/short file is all zero bytes (so that padding hashes decide the
+        result), both orders, v2 and hybrid, library and CLI;
+    (b) something left half-updated by an operation that RAISES in the middle (a symlink leaf without length inside nested
+        directories of the file tree, a missing metafile, a directory where a file is expected), followed by ordinary operations."""
+    out = []
+    Z = 5 * 32768 + 1000            # 10.06 / 5.03 / 2.5 pieces: never a power of two of pieces, last piece partial
+    combos = [((2, "asm", 16384), (3, "asm", 32768)), ((3, "lib", 65536), (2, "lib", 16384)),
+              ((2, "cli", 32768), (3, "cli", 16384)), ((3, "asm", 16384), (2, "asm", 65536))]
+    for (va, via_a, pla), (vb, via_b, plb) in (combos if tier == "thorough" else combos[:3]):
+        for damage in (("delete",), ("shrink",)) if tier == "thorough" else (("delete",),) if va == 2 else (("shrink",),):
+            h = [{"op": "fs", "action": "zeros", "file": "z", "size": Z},
+                 {"op": "fs", "action": "zeros", "file": "d/z2", "size": 3 * 16384},
+                 {"op": "create", "version": va, "via": via_a, "pl": pla},
+                 {"op": "create", "version": vb, "via": via_b, "pl": plb},
+                 {"op": "fs", "action": damage[0], "file": "z", "seed": 3},
+                 {"op": "fs", "action": "delete", "file": "d/z2", "seed": 3},
+                 {"op": "recheck", "version": va, "via": "lib"},
+                 {"op": "recheck", "version": vb, "via": "lib"},
+                 {"op": "recheck", "version": va, "via": "cli"},
+                 {"op": "rebuild", "version": vb, "via": "lib"}]
+            out.append(h)
+    # the same torrent name re-created at another piece length between two rechecks of damaged all-zero content
+    for v, via in ((2, "lib"), (3, "asm")):
+        out.append([{"op": "fs", "action": "zeros", "file": "z", "size": Z},
+                    {"op": "create", "version": v, "via": via, "pl": 16384},
+                    {"op": "fs", "action": "delete", "file": "z", "seed": 1},
+                    {"op": "recheck", "version": v, "via": "lib"},
+                    {"op": "fs", "action": "zeros", "file": "z", "size": Z},
+                    {"op": "create", "version": v, "via": via, "pl": 65536},
+                    {"op": "fs", "action": "delete", "file": "z", "seed": 1},
+                    {"op": "recheck", "version": v, "via": "lib"},
+                    {"op": "create", "version": v, "via": via, "pl": 32768}])
+    # (b) an operation that raises in the middle, then ordinary work
+    for v, via in ((2, "lib"), (3, "asm"), (2, "cli")) if tier == "thorough" else ((2, "lib"), (3, "asm")):
+        bad = f"{v}x"
+        out.append([{"op": "create", "version": v, "via": via, "pl": 16384},
+                    {"op": "fs", "action": "craft-symlink-leaf", "src": v, "dst": bad},
+                    {"op": "recheck", "version": bad, "via": "lib"},
+                    {"op": "recheck", "version": v, "via": "lib"},
+                    {"op": "rebuild", "version": bad, "via": "lib"},
+                    {"op": "rebuild", "version": v, "via": "lib"},
+                    {"op": "recheck", "version": bad, "via": "cli"},
+                    {"op": "recheck", "version": v, "via": "cli"},
+                    {"op": "info", "version": bad, "via": "lib"},
+                    {"op": "create", "version": v, "via": via, "pl": 32768},
+                    {"op": "recheck", "version": v, "via": "lib"}])
+    for v, via in ((1, "lib"), (3, "cli")):
+        out.append([{"op": "create", "version": v, "via": via},
+                    {"op": "recheck", "version": v, "via": "lib"},
+                    {"op": "fs", "action": "remove-meta", "version": v},
+                    {"op": "recheck", "version": v, "via": "lib"},
+                    {"op": "edit", "version": v, "via": "lib", "comment": "c1"},
+                    {"op": "rebuild", "version": v, "via": "lib"},
+                    {"op": "magnet", "version": v, "via": "lib"},
+                    {"op": "info", "version": v, "via": "lib"},
+                    {"op": "create", "version": v, "via": via},
+                    {"op": "recheck", "version": v, "via": "cli"},
+                    {"op": "edit", "version": v, "via": "cli", "comment": "c2"}])
+    for v, via in ((2, "asm"), (1, "lib")):
+        out.append([{"op": "create", "version": v, "via": via},
+                    {"op": "fs", "action": "dir-for-file", "file": "b"},
+                    {"op": "recheck", "version": v, "via": "lib"},
+                    {"op": "rebuild", "version": v, "via": "lib"},
+                    {"op": "create", "version": v, "via": via},
+                    {"op": "recheck", "version": v, "via": "lib"},
+                    {"op": "fs", "action": "dir-for-file", "file": "d/c"},
+                    {"op": "create", "version": v, "via": "cli"},
+                    {"op": "recheck", "version": v, "via": "cli"}])
+    return out
+
+
 def run(ctx, model_ok):
     import sys
     sys.path.insert(0, os.path.join(core.VERIF, "harness"))
-    n = 36 if ctx.tier == "quick" else 600
+    n = 44 if ctx.tier == "quick" else 600
     maxlen = 8 if ctx.tier == "quick" else 15
     hist = []
     # aimed prefixes first: create; change; create (every kind of change)
@@ -168,6 +277,7 @@ def run(ctx, model_ok):
                      {"op": "fs", "action": "grow", "file": "a", "seed": 5},
                      {"op": "create", "version": v, "via": via, "pl": 32768}, {"op": "recheck", "version": v, "via": "cli"},
                      {"op": "create", "version": v, "via": via, "pl": 65536}])
+    hist += aimed_state_histories(ctx.tier)
     while len(hist) < n:
         hist.append(gen_history(ctx.rng, ctx.rng.randrange(3, maxlen + 1)))
     with core.Scratch("vc09_") as tmp:
